@@ -8,7 +8,7 @@ use std::io::Write;
 use std::sync::atomic::{AtomicU64, Ordering};
 use std::sync::Arc;
 
-use datacake_rpc::{to_view_bytes, Channel, DataView, ErrorCode, Handler, Request, RpcClient, RpcService, Server, ServiceRegistry, Status};
+use datacake_rpc::{to_view_bytes, Channel, DataView, ErrorCode, Handler, Request, RpcClient, RpcService, ServiceRegistry, Status};
 use rand::rngs::StdRng;
 use rand::{Rng, SeedableRng};
 use rkyv::{AlignedVec, Archive, Deserialize, Serialize};
@@ -306,8 +306,7 @@ pub async fn record() {
 
     // ---- wire level: real server, raw posts of damaged frames, counting handler executions
     let runs = Arc::new(AtomicU64::new(0));
-    let addr = crate::free_addr();
-    let server = Server::listen(addr).await.expect("listen");
+    let (server, addr) = crate::registry::listen_somewhere().await;
     server.add_service(Echo { runs: runs.clone() });
     let raw = hyper::Client::builder().http2_only(true).build_http::<hyper::Body>();
     let mut wire_events = 0u64;
